@@ -246,8 +246,9 @@ theorem edge_rt_lm_se2 (env : Env A) (g : Graph A) (i0 i1 : Int) (info : Mat A) 
       RT env (g.params.map (canonParam env)) line (.edge (canonEdge env g.params ⟨[i0, i1], info, .landmark est off oid⟩)) := by
   simp only [edgeOK, Bool.and_eq_true, decide_eq_true_eq, List.all_cons, List.all_nil, Bool.and_true, hk, beq_iff_eq,
     Bool.or_eq_true, Option.some.injEq, reduceCtorEq, false_and, or_false, true_and] at h
-  obtain ⟨⟨_, hi0, hi1⟩, hp, ⟨⟨⟨⟨_, hek⟩, hok⟩, hid⟩, hinfo⟩⟩ := h
+  obtain ⟨⟨_, hi0, hi1⟩, hp, ⟨⟨⟨⟨hk1, hek⟩, hok⟩, hid⟩, hinfo⟩⟩ := h
   obtain ⟨v0, hv0, hv0k⟩ := kindAt_zero g i0 i1 info _ _ hk
+  obtain ⟨v1, hv1, hv1k⟩ := kindAt_one g i0 i1 info _ _ hk1
   obtain ⟨_, hlen, hx⟩ := (poseOK_iff env _).mp hp
   obtain ⟨ek, xs⟩ := est
   obtain ⟨ok, os⟩ := off
@@ -259,7 +260,7 @@ theorem edge_rt_lm_se2 (env : Env A) (g : Graph A) (i0 i1 : Int) (info : Mat A) 
   have htok := edge_fields_tok env i0 i1 [a, b] tri hi0 hi1 hx htg
   refine ⟨fmtLine T.edgeSE2XY ([env.fmtI i0, env.fmtI i1] ++ [a, b].map env.fmtF ++ tri.map env.fmtF), ?_, ?_⟩
   · rw [← fmtEdgeLine_eq _ _ _ (by simp) (by simpa [tri] using triuPairs_ne_nil 2 (by decide))]
-    simp [Edge.write, Edge.kind0, hv0, hv0k, Edge.toG2O, hid, fmtIds_ok env [i0, i1] 2 rfl, fmtEntries_ok env [a, b] 2 rfl, hfi, tri]
+    simp [Edge.write, Edge.kind0, Edge.kind1, hv0, hv0k, hv1, hv1k, Edge.toG2O, hid, fmtIds_ok env [i0, i1] 2 rfl, fmtEntries_ok env [a, b] 2 rfl, hfi, tri]
   · refine ⟨fmtLine_clean _ _ (tags_clean _ (by simp [T.all])) htok, isBlank_fmtLine _ _ (by simp [T.all]), ?_⟩
     have : canonEdge env g.params ⟨[i0, i1], info, .landmark ⟨.r2, [a, b]⟩ ⟨.se2, os⟩ oid⟩
         = ⟨[i0, i1], info, .landmark ⟨.r2, [a, b]⟩ ⟨.se2, identitySE2 env⟩ (some 0)⟩ := by
@@ -277,8 +278,9 @@ theorem edge_rt_lm_se3 (env : Env A) (g : Graph A) (i0 i1 : Int) (info : Mat A) 
       RT env (g.params.map (canonParam env)) line (.edge (canonEdge env g.params ⟨[i0, i1], info, .landmark est off oid⟩)) := by
   simp only [edgeOK, Bool.and_eq_true, decide_eq_true_eq, List.all_cons, List.all_nil, Bool.and_true, hk, beq_iff_eq,
     Bool.or_eq_true, Option.some.injEq, reduceCtorEq, false_and, false_or, true_and] at h
-  obtain ⟨⟨_, hi0, hi1⟩, hp, ⟨⟨⟨⟨_, hek⟩, hok⟩, hoid⟩, hinfo⟩⟩ := h
+  obtain ⟨⟨_, hi0, hi1⟩, hp, ⟨⟨⟨⟨hk1, hek⟩, hok⟩, hoid⟩, hinfo⟩⟩ := h
   obtain ⟨v0, hv0, hv0k⟩ := kindAt_zero g i0 i1 info _ _ hk
+  obtain ⟨v1, hv1, hv1k⟩ := kindAt_one g i0 i1 info _ _ hk1
   obtain ⟨_, hlen, hx⟩ := (poseOK_iff env _).mp hp
   obtain ⟨ek, xs⟩ := est
   obtain ⟨ok, os⟩ := off
@@ -315,7 +317,7 @@ theorem edge_rt_lm_se3 (env : Env A) (g : Graph A) (i0 i1 : Int) (info : Mat A) 
         · exact (htg a ha).2
       refine ⟨fmtLine T.edgeSE3TrackXYZ ([env.fmtI i0, env.fmtI i1, env.fmtI z] ++ [a, b, c].map env.fmtF ++ tri.map env.fmtF), ?_, ?_⟩
       · rw [← fmtEdgeLine_eq _ _ _ (by simp) (by simpa [tri] using triuPairs_ne_nil 3 (by decide))]
-        simp [Edge.write, Edge.kind0, hv0, hv0k, Edge.toG2O, fmtOffsetId, fmtIds_ok env [i0, i1] 2 rfl, fmtEntries_ok env [a, b, c] 3 rfl, hfi, tri]
+        simp [Edge.write, Edge.kind0, Edge.kind1, hv0, hv0k, hv1, hv1k, Edge.toG2O, fmtOffsetId, fmtIds_ok env [i0, i1] 2 rfl, fmtEntries_ok env [a, b, c] 3 rfl, hfi, tri]
       · refine ⟨fmtLine_clean _ _ (tags_clean _ (by simp [T.all])) htok, isBlank_fmtLine _ _ (by simp [T.all]), ?_⟩
         have : canonEdge env g.params ⟨[i0, i1], info, .landmark ⟨.r3, [a, b, c]⟩ ⟨.se3, os⟩ (some z)⟩
             = ⟨[i0, i1], info, .landmark ⟨.r3, [a, b, c]⟩ p.value (some z)⟩ := by
